@@ -86,6 +86,7 @@ type Config struct {
 	MultiEntry   int  // >0: first k modules are entry points (ESM), used by C10
 	MutableLets  bool // exported `let` counters mutated from other modules via exported functions
 	Unused       bool // add declarations and whole modules that nothing uses (C04)
+	DeferLive    bool // mutate shared counters without logging the value at once (C10: cross-module order may differ)
 }
 
 type gen struct {
@@ -333,7 +334,11 @@ func (g *gen) body(i int) Module {
 			if !tcjs && g.cfg.MutableLets {
 				l3, l4 := fmt.Sprintf("c%d_in%d", to, i), fmt.Sprintf("inc%d_in%d", to, i)
 				w(`import { c%d as %s, inc%d as %s } from "%s";`, to, l3, to, l4, spec)
-				uses = append(uses, use{"(" + l4 + "(), " + l3 + ")", "live-binding"})
+				if g.cfg.DeferLive {
+					uses = append(uses, use{"(" + l4 + "(), typeof " + l3 + ")", "live-binding"})
+				} else {
+					uses = append(uses, use{"(" + l4 + "(), " + l3 + ")", "live-binding"})
+				}
 				g.labels["live-binding-mutation"] = true
 			}
 		case ImportDefault:
